@@ -505,6 +505,18 @@ func init() {
 				}
 			}
 		}
+		if full {
+			// every name x every endpoint x every metadata variant for the read calls
+			for _, ep := range c05Endpoints {
+				for _, n := range c05Names {
+					for m := 0; m < nm; m++ {
+						for _, op := range []string{"stat", "readdir"} {
+							cases = append(cases, c05Case{Backend: "memfs", Endpoint: ep, Op: op, Name: n, Meta: m, Opt: 1, Rel: m%2 == 0})
+						}
+					}
+				}
+			}
+		}
 		// name x name pairs for copy/move
 		names2 := c05Names
 		if !full {
